@@ -137,7 +137,7 @@ def run_case(case):
         p = gen.sd_params(rng, strong=False)
         o = rng.normal(size=d)
         o, rm, scale = lib.guard_coupling(p, o, dt, nsteps, None, None, rng)
-        tol[0] = max(TOL, 100.0 * epsrel * scale)
+        tol[0] = max(TOL, 100.0 * epsrel * scale * lib.pt_growth(nsteps))
         v = gen.haar_unitary(rng, d)
         oper = v @ np.diag(o) @ v.conj().T
         oper = (oper + oper.conj().T) / 2
@@ -180,7 +180,8 @@ def run_case(case):
             o = rng.normal(size=dd)
             o, rm, scale = lib.guard_coupling(p, o, dt, nsteps, None, None,
                                               rng)
-            tol[0] = max(tol[0], 100.0 * epsrel * scale)
+            tol[0] = max(tol[0], 100.0 * epsrel * scale
+                         * lib.pt_growth(nsteps))
             opers.append(np.diag(o).astype(complex))
             corrs.append(gen.make_power_law(p))
         rhos = [gen.rand_state(rng, dd) for dd in dims]
